@@ -1,10 +1,12 @@
 package props
 
 import (
+	"bufio"
 	"bytes"
 	"fmt"
 	"io"
 	"runtime"
+	"strings"
 	"unicode/utf8"
 
 	"github.com/tdewolff/parse/v2/buffer"
@@ -54,8 +56,13 @@ func c13Run(t *fw.T) {
 	cs.Size = gen.Pick(r, []int{0, 1, 2, 3, 7, 8, 16, 64, 4096})
 	maxChunk := 1 + r.Intn(2*cs.Size+4)
 	cs.Reader = "sched"
-	if r.Intn(12) == 0 {
-		cs.Reader = "bytes"
+	switch r.Intn(16) {
+	case 0:
+		cs.Reader = "bytes" // a reader with a Bytes() method
+	case 1:
+		// standard library readers, fresh or with a head already consumed by the caller: the lexer must deliver what
+		// the reader still has to deliver, whatever shortcuts the reader's other methods (ReadAt, Len, Bytes) invite
+		cs.Reader = gen.Pick(r, []string{"bytes.Reader", "strings.Reader", "bytes.Buffer", "bufio.Reader"})
 	}
 	delivered := data
 	if cs.Reader == "sched" && r.Intn(4) == 0 {
@@ -72,6 +79,26 @@ func c13Run(t *fw.T) {
 	endErr := error(io.EOF)
 	if cs.Reader == "bytes" {
 		rd = &gen.BytesReader{B: append([]byte(nil), delivered...)}
+	} else if cs.Reader != "sched" {
+		head := gen.UTF8(r, r.Intn(9)) // consumed before the lexer is created
+		all := append(append([]byte(nil), head...), delivered...)
+		var src io.Reader
+		switch cs.Reader {
+		case "bytes.Reader":
+			src = bytes.NewReader(all)
+		case "strings.Reader":
+			src = strings.NewReader(string(all))
+		case "bytes.Buffer":
+			src = bytes.NewBuffer(all)
+		default:
+			src = bufio.NewReaderSize(bytes.NewReader(all), 16)
+		}
+		if len(head) > 0 {
+			if _, err := io.ReadFull(src, make([]byte, len(head))); err != nil {
+				return
+			}
+		}
+		rd = src
 	} else {
 		sr = &gen.SchedReader{Data: delivered, Chunks: cs.Chunks, ErrWithLast: cs.WithLast}
 		if cs.FailAt >= 0 {
